@@ -13,10 +13,7 @@ import (
 
 // lowerFirst converts field names to the Dart convention
 func lowerFirst(s string) string {
-	if s == "" {
-		return s
-	}
-	return strings.ToLower(s[0:1]) + s[1:]
+	return gen.ToLowerFirst(s)
 }
 
 // typeName returns the Dart string used to refer to this type
